@@ -832,7 +832,9 @@ impl<'a> Printer<'a> {
         if !(self.lay.enabled && self.at_line_start && !self.in_slot) || !self.rng.chance(1, 7) {
             return;
         }
-        let t = match self.rng.below(4) {
+        let t = match if self.rng.chance(1, 150) { 9 } else { self.rng.below(4) } {
+            // a very long line: what follows sits beyond column 65536
+            9 => format!("_ = \"{}\"; ", ["x", "é"][self.rng.usize_below(2)].repeat(66_000 + self.rng.usize_below(9000))),
             0 => "_ = \"żółw ✓ 日本\"; ".to_string(),
             1 if self.lay.rawnl => "_ = \"first\nsecond ü\"; ".to_string(),
             2 => "_ = \"é\";\t".to_string(),
@@ -840,6 +842,10 @@ impl<'a> Printer<'a> {
         };
         if t.contains('\n') {
             self.global_feats.insert("multiline-string".into());
+        }
+        if t.len() > 60_000 {
+            self.global_feats.insert("bulk-padding".into());
+            self.line_feats.insert("very-long-line".into());
         }
         self.raw(&t);
         if t.contains('\n') {
